@@ -6,6 +6,18 @@ Refs1 == {<<"n", 1>>, <<"n", 2>>, <<"w", 1>>, <<"r", 1>>, <<"r", 2>>, <<"r", 7>>
 Stream1 == << <<"n", 1>>, <<"n", 2>>, <<"n", 3>>, <<"w", 1>>, <<"w", 4>>, <<"r", 1>>, <<"r", 2>>, <<"r", 5>>, <<"r", 7>> >>
 Refs2 == {<<"n", 1>>, <<"w", 1>>, <<"r", 2>>}
 Stream2 == << <<"n", 1>>, <<"n", 3>>, <<"w", 1>>, <<"r", 1>>, <<"r", 2>> >>
+RefsGC == {<<"n", 1>>, <<"n", 2>>, <<"n", 3>>, <<"n", 4>>, <<"w", 1>>, <<"w", 2>>}
+StreamGC == << <<"n", 1>>, <<"n", 2>>, <<"n", 3>>, <<"n", 4>>, <<"n", 6>>, <<"w", 1>>, <<"w", 2>>, <<"r", 1>>, <<"r", 2>>, <<"r", 5>> >>
+(* A sub-specification (fewer choices, same actions) that steers the simulation towards scenarios with many stored
+   members: every relation is of interest, every member is wanted and used by one relation only, every candidate of
+   the stream occurs.  SpecGC => Spec, so these are behaviours of the spec. *)
+UsedRefs == {<<curMembers[j].t, curMembers[j].ref>> : j \in 1..Len(curMembers)}
+            \cup UNION {{<<input[i].members[j].t, input[i].members[j].ref>> : j \in 1..Len(input[i].members)} : i \in 1..Len(input)}
+NextGC == \/ OpenRelation(TRUE)
+          \/ \E ref \in Refs : ref \notin UsedRefs /\ AddMember(ref, TRUE)
+          \/ (Len(curMembers) >= 2 /\ CloseRelation)
+          \/ Prepare \/ Feed \/ Finish
+SpecGC == Init /\ [][NextGC]_vars
 AllTypes == {"n", "w", "r"}
 TNone == {}
 TN == {"n"}
